@@ -47,7 +47,7 @@ func init() {
 		ID:    "C19",
 		Level: "model_checking",
 		Rule: "explicit-state BFS over all histories of Append/Prepend/Replace x {no args, 1, 2 strings, slices with spare capacity, nil slice} and Clear, from 7 initial lists (nil, empty, spare capacity; Start and X of a qualified identifier the decorator collapsed with all three of its points filled, Start of its Clone, X of a decorated binary expression), " +
-			"depth 7 (quick) / 10 (thorough); after every step: All() == []string model, caller backing arrays bit-identical, later caller mutation invisible, slices returned by earlier All() calls keep their contents, every other decoration list of the decorated file unchanged, printed comments == All() (as a statement's Start decoration and as the Start/X/End decorations of a package-qualified identifier under import management); " +
+			"depth 7 (quick) / 10 (thorough); after every step: All() == []string model, caller backing arrays bit-identical, later caller mutation invisible, slices returned by earlier All() calls keep their contents, every other decoration list of the decorated file unchanged, printed comments == All() (at every decoration point of every node of a file with many optional parts absent; as a statement's Start decoration and as the Start/X/End decorations of a package-qualified identifier under import management); " +
 			"state key = (contents relabelled by first occurrence, spare capacity); non-trivial = state with >=2 elements",
 		Assumptions: []string{"methods do not inspect string values (relabelling is a sound canonicalisation)"},
 		Units: func(tier string) []string {
@@ -227,6 +227,9 @@ func c19Exec(cs c19Case) (key string, out core.Outcome) {
 		if len(got) != len(model) || (len(model) > 0 && !reflect.DeepEqual([]string(got), model)) {
 			return fail("model-mismatch:"+c19Methods0(op), "after step %d %s: All() = %q, ordered-list model = %q", step, c19OpName(op), got, model)
 		}
+		if err := c19Everywhere(*dp); err != nil {
+			return fail("rendered-differs-at-some-point", "after step %d %s: %v", step, c19OpName(op), err)
+		}
 		if rendered, err := c19Render(*dp); err != nil {
 			return fail("render-error", "after step %d: %v", step, err)
 		} else if strings.Join(rendered, "\x00") != strings.Join(model, "\x00") {
@@ -333,6 +336,66 @@ func c19Render(d dst.Decorations) ([]string, error) {
 		}
 	}
 	return plain, nil
+}
+
+// c19Everywhere renders a list (relabelled, cached by content) at every decoration point of every node
+// of a file that has many optional parts absent (if without else, break without label, func without
+// results or body, tagless switch, for without post ...): what the list holds is what is printed,
+// wherever the list is attached.
+const c19EverywhereSrc = "package a\n\nfunc f(x int, c chan<- int) {\n\tif x > 0 {\n\t}\n\tfor {\n\t\tbreak\n\t}\n\tswitch {\n\t}\n\tfor i := 0; i < 1; {\n\t}\n\tvar v []int\n\t_ = v[:]\n\tgo g()\n\treturn\n}\n\nfunc g()\n\ntype T struct{ A int }\n\ntype I interface{ M() }\n\nvar w = g\n"
+
+var c19EverywhereCache = map[string]error{}
+
+func c19Everywhere(d dst.Decorations) error {
+	lab := map[string]string{}
+	var list []string
+	for _, s := range d {
+		if _, ok := lab[s]; !ok {
+			lab[s] = fmt.Sprintf("/*L%d*/", len(lab))
+		}
+		list = append(list, lab[s])
+	}
+	key := strings.Join(list, ",")
+	if err, ok := c19EverywhereCache[key]; ok {
+		return err
+	}
+	err := func() error {
+		if len(list) == 0 {
+			return nil
+		}
+		f, perr := decorator.Parse(c19EverywhereSrc)
+		if perr != nil {
+			panic(perr)
+		}
+		for _, nd := range allNodes(f) {
+			for _, p := range decPoints(nd) {
+				saved := *p.List
+				*p.List = append(dst.Decorations{}, list...)
+				var out string
+				var err error
+				pan := guard(func() { out, err = printFile(f) })
+				*p.List = saved
+				if pan != "" || err != nil {
+					continue // a block comment at this point makes text go/printer or the parser rejects: says nothing about the list
+				}
+				n := 0
+				toks, _ := gen.Tokens(out, true)
+				var got []string
+				for _, t := range toks {
+					if t.Tok == token.COMMENT {
+						got = append(got, t.Lit)
+						n++
+					}
+				}
+				if strings.Join(got, ",") != key {
+					return fmt.Errorf("list %q attached at %s.%s renders as %q", list, typeName(nd), p.Name, got)
+				}
+			}
+		}
+		return nil
+	}()
+	c19EverywhereCache[key] = err
+	return err
 }
 
 func c19RenderPlain(d dst.Decorations) ([]string, error) {
